@@ -41,16 +41,18 @@ def make_tasks(triples, n_core, r):
     return tasks
 
 
-def build(chk, salt):
+def build(chk, salt, screen="raises"):
     corp = Corpus(chk)
     r = common.rng(salt)
     if chk.quick:
         triples = corp.triples(n_enum=600, n_random=160, salt=salt)
         r.shuffle(triples)
+        triples = triples[:14] + mergefam.sweep(chk, screen, 120) + triples[14:]
         tasks = make_tasks(triples, 14, r)
     else:
         triples = corp.triples(n_enum=8000, n_random=4000, random_maxedits=5, salt=salt)
         r.shuffle(triples)
+        triples = triples[:300] + mergefam.sweep(chk, screen, 1500, positions=("same", "adjacent", "apart")) + triples[300:]
         tasks = make_tasks(triples, 300, r)
     return triples, tasks
 
